@@ -25,7 +25,9 @@ THEOREMS = ["C11_exec_vs_sem", "C11_run_script", "C11_machine_is_fold", "C11_fue
             "C11_continue_innermost", "C11_continue_innermost_for", "C11_loop_signals_stay_inside", "C11_for_signals",
             "C11_for_plain_signals", "C11_break_innermost_nested", "C11_continue_skips_text", "C11_continue_skips_text_for",
             "C11_break_innermost_exec", "C11_break_innermost_for_exec", "C11_continue_skips_exec",
-            "C11_continue_skips_for_exec", "C11_for_increment_break_refuted", "C11_for_increment_break_escapes",
+            "C11_continue_skips_for_exec", "C11_for_increment_break_innermost", "C11_for_increment_continue_innermost",
+            "C11_for_increment_break_exec", "C11_for_increment_break_stays", "C11_for_increment_break_outer_goes_on",
+            "C11_for_increment_continue_outer_goes_on",
             "C11_limit_never_ends", "C11_limit_never_ends_for", "C11_limit_constant", "C11_limit_exec",
             "C11_limit_for_exec", "C11_defaults_fill", "C11_defaults_given", "C11_defaults_missing",
             "C11_defaults_valueless", "C11_extra_args_ignored", "C11_defaults_exec", "C11_defaults_entry_exec",
@@ -34,7 +36,8 @@ THEOREMS = ["C11_exec_vs_sem", "C11_run_script", "C11_machine_is_fold", "C11_fue
 DRIVERS = ["script", "core"]
 RULE = ("programs of 2..7 statements over: leaf commands (notes c d e f g a b with lengths, rests, o/l/v/q state commands), PRINT of 1..3 "
         "integer expressions, INT declarations with and without initialiser, assignments, X++ / X--, IF with and without ELSE (conditions = "
-        "comparisons in all spellings joined by & and |, or an integer expression), FOR(INT I=a; I<b; I++/I=I+k) and WHILE with a counter "
+        "comparisons in all spellings joined by & and |, or an integer expression), FOR(INT I=a; I<b; I++/I=I+k) - a quarter of them with a bare or "
+        "guarded BREAK / CONTINUE written in the increment slot, which belong to that FOR - and WHILE with a counter "
         "(test first or WHILE(1) with a guarded BREAK), BREAK / CONTINUE guarded or bare at nesting depth 1..3, 0..3 user functions with "
         "0..3 parameters (some with declared defaults) defined before or after their use, called as statements and inside expressions "
         "(initialisers, PRINT arguments, conditions, arguments of other calls) with omitted trailing and empty arguments, RETURN(value) from "
@@ -194,9 +197,13 @@ class Interp:
             if sig == "ret":
                 return "ret"
             if inc is not None:
-                s2 = self.stmt(inc, fr)
-                if s2 is not None:
-                    raise Skip("signal in increment")
+                # the increment part stands inside the FOR: the innermost loop enclosing a BREAK / CONTINUE written there is
+                # this FOR (BREAK ends it, CONTINUE ends the increment and the loop goes on with its next test)
+                s2 = self.block(inc, fr) if isinstance(inc, list) else self.stmt(inc, fr)
+                if s2 == "brk":
+                    return None
+                if s2 == "ret":
+                    return "ret"
 
     def stmt(self, s, fr):
         self.tick()
@@ -302,7 +309,8 @@ def p_stmt(s, rng, nl=0.3):
         return "%s%s(%s)%s{%s%s}" % (rng.choice(["WHILE", "While"]), rng.choice(["", " "]), p_cond(s[1], rng), rng.choice(["", " ", "", " ", "\n", " \n  "]),
                                      rng.choice([" ", "\n"]), p_block(s[2], rng, nl))
     if k == "for":
-        inc = p_stmt(s[4], rng).rstrip(";")
+        # the increment part: one statement, or several separated by blanks (no ';': that would be read as a header separator)
+        inc = " ".join(p_stmt(x, rng, 0).rstrip(";") for x in s[4]) if isinstance(s[4], list) else p_stmt(s[4], rng).rstrip(";")
         return "%s(%s %s=%s; %s; %s)%s{%s%s}" % (rng.choice(["FOR", "For"]), rng.choice(["INT", "Int"]), s[1], p_expr(s[2], rng), p_cond(s[3], rng),
                                                inc, rng.choice(["", " ", "", " ", "\n", " \n  "]), rng.choice([" ", "\n"]), p_block(s[5], rng, nl))
     if k == "break":
@@ -499,6 +507,14 @@ class Gen:
             # parentheses inside the increment: the header ends at the ')' that closes it, not at the first one
             inc = ("assign", i, ("bin", "+", ("var", i), ("bin", "*", ("lit", step), ("lit", 1))))
         body = self.block(vars_ + [i], depth - 1, rng.randrange(1, 4), True, in_func, written)
+        if rng.random() < 0.25:
+            # BREAK / CONTINUE written in the increment slot (bare or guarded, before or behind the step): they belong to THIS loop
+            m = rng.choice([0, 1, 2, 3])
+            g = lambda sig: ("if", ("cmp", rng.choice([">", ">=", "="]), ("var", i), ("lit", a + m)), [(sig,)], None)
+            inc = rng.choice([lambda: [("incr", i, 1), ("break",)], lambda: [("incr", i, 1), ("continue",)], lambda: [("break",)],
+                              lambda: [("incr", i, 1), g("break")], lambda: [("incr", i, 1), g("continue")],
+                              lambda: [g("break"), inc], lambda: [g("continue"), inc],
+                              lambda: [("incr", i, 1), g("continue"), ("incr", i, 1)]])()
         return ("for", i, ("lit", a), ("cmp", rng.choice(["<", "<="]), ("var", i), ("lit", n)), inc, body)
 
 
